@@ -259,6 +259,34 @@ func vfRunBA(t *testing.T, spec *vfSpec, res *vfRes) {
 	o.onEstablished = func(s *vfSim, w *vfWork) {
 		stop = make(chan struct{})
 		samplerDone = make(chan struct{})
+		// pollers: the getters are called all the time from goroutines of their own, not only at quiescent points
+		// (values unused: this is for the race detector and for lock-order problems)
+		for side := 0; side < 2; side++ {
+			a := s.getAssoc(side)
+			go func() {
+				pr := vfNewRand(spec.Seed ^ 0x9011)
+				for {
+					select {
+					case <-stop:
+						return
+					case <-s.net.pumpDone:
+						return
+					default:
+					}
+					_ = a.BufferedAmount()
+					for _, run := range w.allRuns() {
+						run.mu.Lock()
+						ws := run.wStream
+						run.mu.Unlock()
+						if ws != nil {
+							_ = ws.BufferedAmount()
+							_ = ws.BufferedAmountLowThreshold()
+						}
+					}
+					time.Sleep(time.Duration(200+pr.Intn(1800)) * time.Microsecond)
+				}
+			}()
+		}
 		// install the callbacks as soon as the writer streams exist
 		go func() {
 			defer close(samplerDone)
